@@ -251,7 +251,7 @@ fn judge(case: &Case<Model>, rep: &mut Report) {
 pub fn run(ctx: &Ctx) -> (Spec, Report) {
     // exhaustive part: all edge sets on 3 source-capable items (2^9 graphs), thorough: 4 items sampled by bitmask stride
     let n_exh = 512usize;
-    let n = n_exh + ctx.tier.pick(2500, 50_000);
+    let n = n_exh + ctx.tier.pick(6000, 80_000);
     let rep = run_rounds(
         ctx,
         "C11",
